@@ -18,6 +18,7 @@ import (
 	"os"
 	"path/filepath"
 	"sort"
+	"strconv"
 	"strings"
 
 	"golang.org/x/tools/go/ast/astutil"
@@ -169,6 +170,55 @@ func collect(info *types.Info, f *ast.File, rel string) []site {
 		if !ok || fd.Body == nil {
 			continue
 		}
+		// a counter is bumped on entry (what a metrics or tracing hook would add), or on exit through a defer
+		if len(fd.Body.List) > 0 && f.Name.Name != "main" {
+			for _, kind := range []string{"add-trace", "add-defer-trace"} {
+				kind := kind
+				add(kind, func() {
+					call := &ast.CallExpr{Fun: ast.NewIdent("traceRn"), Args: []ast.Expr{&ast.BasicLit{Kind: token.STRING, Value: strconv.Quote(fd.Name.Name)}}}
+					var st ast.Stmt = &ast.ExprStmt{X: call}
+					if kind == "add-defer-trace" {
+						st = &ast.DeferStmt{Call: call}
+					}
+					fd.Body.List = append([]ast.Stmt{st}, fd.Body.List...)
+					astutil.AddImport(fileSet, f, "sync/atomic")
+					f.Decls = append(f.Decls,
+						&ast.GenDecl{Tok: token.VAR, Specs: []ast.Spec{&ast.ValueSpec{Names: []*ast.Ident{ast.NewIdent("traceCountRn")}, Type: ast.NewIdent("int64")}}},
+						&ast.FuncDecl{Name: ast.NewIdent("traceRn"),
+							Type: &ast.FuncType{Params: &ast.FieldList{List: []*ast.Field{{Names: []*ast.Ident{ast.NewIdent("name")}, Type: ast.NewIdent("string")}}}},
+							Body: &ast.BlockStmt{List: []ast.Stmt{&ast.ExprStmt{X: &ast.CallExpr{
+								Fun:  &ast.SelectorExpr{X: ast.NewIdent("atomic"), Sel: ast.NewIdent("AddInt64")},
+								Args: []ast.Expr{&ast.UnaryExpr{Op: token.AND, X: ast.NewIdent("traceCountRn")}, &ast.BasicLit{Kind: token.INT, Value: "1"}}}}}}})
+				})
+			}
+		}
+		// the text of an error message changes
+		ast.Inspect(fd.Body, func(n ast.Node) bool {
+			call, ok := n.(*ast.CallExpr)
+			if !ok {
+				return true
+			}
+			name := ""
+			switch fn := call.Fun.(type) {
+			case *ast.Ident:
+				name = fn.Name
+			case *ast.SelectorExpr:
+				if x, ok := fn.X.(*ast.Ident); ok {
+					name = x.Name + "." + fn.Sel.Name
+				}
+			}
+			idx := map[string]int{"errorf": 1, "errors.New": 0, "fmt.Errorf": 0}
+			i, ok := idx[name]
+			if !ok || len(call.Args) <= i {
+				return true
+			}
+			lit, ok := call.Args[i].(*ast.BasicLit)
+			if !ok || lit.Kind != token.STRING || !strings.HasPrefix(lit.Value, `"`) {
+				return true
+			}
+			add("edit-msg", func() { lit.Value = lit.Value[:len(lit.Value)-1] + ` (reworded)"` })
+			return true
+		})
 		// the tail of the body moves into a new function of the variables it reads
 		for _, cut := range tailCuts(fd) {
 			cut := cut
@@ -684,6 +734,82 @@ func collectPackage(pkg *packages.Package, repo string) []site {
 							}
 						}
 					}
+				}})
+			}
+		}
+	}
+	// an unexported function or method gains a trailing parameter that every caller fills with 0; a
+	// method of an unexported... any named type becomes a function of its receiver
+	for _, f := range pkg.Syntax {
+		f := f
+		rel, _ := filepath.Rel(repo, pkg.Fset.Position(f.Pos()).Filename)
+		if strings.HasSuffix(rel, "_test.go") {
+			continue
+		}
+		for _, d := range f.Decls {
+			fd, ok := d.(*ast.FuncDecl)
+			if !ok || fd.Body == nil || fd.Name.IsExported() || fd.Name.Name == "main" || fd.Name.Name == "init" {
+				continue
+			}
+			fn, _ := info.Defs[fd.Name].(*types.Func)
+			if fn == nil {
+				continue
+			}
+			calls, onlyCalled := callsOf(pkg, fn)
+			if !onlyCalled || len(calls) == 0 {
+				continue
+			}
+			if sig := fn.Type().(*types.Signature); !sig.Variadic() {
+				out = append(out, site{kind: "add-param", file: rel, do: func() {
+					fd.Type.Params.List = append(fd.Type.Params.List, &ast.Field{Names: []*ast.Ident{ast.NewIdent("_")}, Type: ast.NewIdent("int")})
+					for _, c := range calls {
+						c.call.Args = append(c.call.Args, &ast.BasicLit{Kind: token.INT, Value: "0"})
+					}
+				}})
+			}
+			if fd.Recv != nil && len(fd.Recv.List) == 1 && len(fd.Recv.List[0].Names) == 1 && !recvHasTypeParams(fd) {
+				out = append(out, site{kind: "method-to-func", file: rel, do: func() {
+					tn := recvTypeName(fd)
+					name := strings.ToLower(tn[:1]) + tn[1:] + strings.ToUpper(fd.Name.Name[:1]) + fd.Name.Name[1:]
+					recvField := fd.Recv.List[0]
+					_, ptrRecv := recvField.Type.(*ast.StarExpr)
+					fd.Type.Params.List = append([]*ast.Field{recvField}, fd.Type.Params.List...)
+					fd.Recv = nil
+					fd.Name.Name = name
+					for _, c := range calls {
+						sel := c.call.Fun.(*ast.SelectorExpr)
+						recv := sel.X
+						// the method call took the address (or dereferenced) implicitly
+						_, argPtr := info.TypeOf(recv).Underlying().(*types.Pointer)
+						switch {
+						case ptrRecv && !argPtr:
+							recv = &ast.UnaryExpr{Op: token.AND, X: recv}
+						case !ptrRecv && argPtr:
+							recv = &ast.StarExpr{X: recv}
+						}
+						c.call.Fun = ast.NewIdent(name)
+						c.call.Args = append([]ast.Expr{recv}, c.call.Args...)
+					}
+				}})
+			}
+		}
+		// a struct type gains a field nobody sets
+		for _, d := range f.Decls {
+			gd, ok := d.(*ast.GenDecl)
+			if !ok || gd.Tok != token.TYPE {
+				continue
+			}
+			for _, spec := range gd.Specs {
+				ts := spec.(*ast.TypeSpec)
+				st, ok := ts.Type.(*ast.StructType)
+				if !ok {
+					continue
+				}
+				if tn, _ := info.Defs[ts.Name].(*types.TypeName); tn == nil || unkeyedLits(pkg)[tn] {
+					continue
+				}
+				out = append(out, site{kind: "add-field", file: rel, do: func() {
+					st.Fields.List = append(st.Fields.List, &ast.Field{Names: []*ast.Ident{ast.NewIdent("extraRn")}, Type: ast.NewIdent("int")})
 				}})
 			}
 		}
@@ -1837,4 +1963,85 @@ func planMiddle(info *types.Info, f *ast.File, fd *ast.FuncDecl, from, to int, r
 		outb = append(outb, decl...)
 		rawEdits[rel] = outb
 	}
+}
+
+type callRef struct{ call *ast.CallExpr }
+
+// callsOf returns the calls of fn in the package; onlyCalled is false when fn is also used as a value.
+func callsOf(pkg *packages.Package, fn *types.Func) ([]callRef, bool) {
+	info := pkg.TypesInfo
+	var out []callRef
+	only := true
+	for _, f := range pkg.Syntax {
+		var stack []ast.Node
+		ast.Inspect(f, func(n ast.Node) bool {
+			if n == nil {
+				stack = stack[:len(stack)-1]
+				return false
+			}
+			stack = append(stack, n)
+			id, ok := n.(*ast.Ident)
+			if !ok {
+				return true
+			}
+			o := info.Uses[id]
+			if of, isF := o.(*types.Func); !isF || of.Origin() != fn {
+				return true
+			}
+			var call *ast.CallExpr
+			if len(stack) >= 2 {
+				switch p := stack[len(stack)-2].(type) {
+				case *ast.CallExpr:
+					if p.Fun == ast.Expr(id) {
+						call = p
+					}
+				case *ast.SelectorExpr:
+					if p.Sel == id && len(stack) >= 3 {
+						if c, ok := stack[len(stack)-3].(*ast.CallExpr); ok && c.Fun == ast.Expr(p) {
+							if sel := info.Selections[p]; sel == nil || len(sel.Index()) == 1 {
+								call = c
+							}
+						}
+					}
+				}
+			}
+			if call == nil || call.Ellipsis.IsValid() {
+				only = false
+				return true
+			}
+			out = append(out, callRef{call})
+			return true
+		})
+	}
+	return out, only
+}
+
+var unkeyedCache = map[*packages.Package]map[*types.TypeName]bool{}
+
+func unkeyedLits(pkg *packages.Package) map[*types.TypeName]bool {
+	if m, ok := unkeyedCache[pkg]; ok {
+		return m
+	}
+	m := map[*types.TypeName]bool{}
+	for _, f := range pkg.Syntax {
+		ast.Inspect(f, func(n ast.Node) bool {
+			cl, ok := n.(*ast.CompositeLit)
+			if !ok || len(cl.Elts) == 0 {
+				return true
+			}
+			if _, keyed := cl.Elts[0].(*ast.KeyValueExpr); keyed {
+				return true
+			}
+			t := pkg.TypesInfo.TypeOf(cl)
+			if p, isPtr := t.(*types.Pointer); isPtr {
+				t = p.Elem()
+			}
+			if nt, ok := t.(*types.Named); ok {
+				m[nt.Origin().Obj()] = true
+			}
+			return true
+		})
+	}
+	unkeyedCache[pkg] = m
+	return m
 }
